@@ -1,6 +1,7 @@
 (* C18 - OS and process information streams mirror the target.  Property theorems only (derivation logic). *)
 From Coq Require Import List NArith Arith.
-From MDW Require Import Bytes GenTypes Generated MemInfo MemInfoProofs DsoDebug DsoStream DsoStreamProofs.
+From MDW Require Import Bytes GenTypes Generated MemInfo MemInfoProofs DsoDebug DsoStream DsoStreamProofs Auxv AuxvProofs.
+From MDW Require MemWriter Writer Hoare Image ImagePayload.
 Import ListNotations.
 Local Open Scope N_scope.
 
@@ -47,3 +48,30 @@ Print Assumptions C18_walk_total.
 Theorem C18_refuted_cycle : forall fuel acc, walk false None cyc fuel 0x1000 acc = Hang.
 Proof. exact walk_orig_hangs_on_cycle. Qed.
 Print Assumptions C18_refuted_cycle.
+
+(* What the memory-information stream SAYS, byte for byte: header (16, 48, count) followed by the encodings of the entries, in
+   map order; its directory entry names exactly those bytes. *)
+Theorem C18_meminfo_payload : forall c s d s',
+  Image.sec_meminfo c s = MemWriter.Ok (d, s') ->
+  Writer.w_buf s' = Writer.w_buf s ++ (le 4 16 ++ le 4 48 ++ le 8 (N.of_nat (length (Image.ic_meminfo c)))) ++ concat (map Image.enc_meminfo (Image.ic_meminfo c)) /\
+  d = (Image.T_MEMINFO, {| MemWriter.l_rva := MemWriter.u32 (Hoare.blen s); MemWriter.l_size := (16 + N.of_nat (Image.MEMINFO_SZ * length (Image.ic_meminfo c)))%N |}).
+Proof. exact ImagePayload.meminfo_payload. Qed.
+Print Assumptions C18_meminfo_payload.
+
+(* The auxiliary values as the writer resolves them (Auxv.v): what the caller supplied (non-zero) always wins, whatever
+   /proc/<pid>/auxv says; a key the caller did not supply takes the value of its FIRST occurrence in the file; nothing behind
+   AT_NULL is read. *)
+Theorem C18_supplied_auxv_wins : forall dn dp dg de file,
+  (dn <> 0 -> r_phnum (resolve dn dp dg de file) = Some dn) /\ (dp <> 0 -> r_phdr (resolve dn dp dg de file) = Some dp) /\
+  (dg <> 0 -> r_gate (resolve dn dp dg de file) = Some dg) /\ (de <> 0 -> r_entry (resolve dn dp dg de file) = Some de).
+Proof. exact supplied_wins. Qed.
+Print Assumptions C18_supplied_auxv_wins.
+Theorem C18_auxv_first_occurrence : forall key v ps ps', (forall p, In p ps -> fst p <> key) -> first_of key (ps ++ (key, v) :: ps') = Some v.
+Proof. exact first_occurrence. Qed.
+Print Assumptions C18_auxv_first_occurrence.
+Theorem C18_auxv_null_ends_the_vector : forall fuel (a rest rest' : bytes),
+  length a = 16%nat -> unle (firstn 8 a) = AT_NULL ->
+  parse_pairs fuel (a ++ rest) = ([], match fuel with O => true | S _ => false end) /\
+  parse_pairs fuel (a ++ rest) = parse_pairs fuel (a ++ rest').
+Proof. exact null_ends_the_vector. Qed.
+Print Assumptions C18_auxv_null_ends_the_vector.
